@@ -163,6 +163,7 @@ func main() {
 			os.Exit(1)
 		}
 		an.DumpE12(p)
+		an.DumpE13(p)
 	case "list":
 		for _, id := range an.AllProps() {
 			fmt.Println(id)
